@@ -288,6 +288,14 @@ Section Fold.
                   end
       end in
     match dimv 0%nat, dimv 1%nat with
+    | Some (inl x), Some (inr _) | Some (inr _), Some (inl x) =>
+      if add_rejects_negative_constant && Z.ltb x 0 then PNone st
+      else
+        let show (d : Z + string) := match d with inl z => z_to_string z | inr s => s end in
+        match dimv 0%nat, dimv 1%nat, out0 n with
+        | Some a, Some b, Some y => PNone (set_sym st y (SShape [DSym (show a ++ "+" ++ show b)]))
+        | _, _, _ => PNone st
+        end
     | Some a, Some b =>
       let r := match a, b with
                | inl x, inl y => DInt (x + y)
